@@ -391,7 +391,10 @@ _FLOOR_REPORTS = [0, 0]     # floor-level reports not judged: [relevance-enabled
 
 class SeedFailureMonitor(FailureMonitor):
     """FailureMonitor that also records the derivative seed variable(s) active when a solver reported failure.
-    mon.failures: (solver class, message, seeds, mixed, full seeds, in-coloring, irrelevant-only residual, hollow)
+    mon.failures: (solver class, message, seeds, mixed, full seeds, in-coloring, irrelevant-only residual, hollow,
+                   approx-only)
+      approx-only (block solvers, irrelevant-only residual): True if every unconverged entry belongs to an output
+          inside a group with approx_totals
       hollow = 'self' / 'below': the failing solver's group / a group below it is relevant for the active seeds as a
           SYSTEM while none of its components is (see report_failure); False: no such group; None: unknown
       mixed = 'below'   : below the failing solver's system there is a group whose linear solver switches relevance
@@ -466,6 +469,7 @@ class SeedFailureMonitor(FailureMonitor):
             seeds = None
             mixed = None
             irr_only = None
+            apx_only = None
             try:
                 sys_ = slf._system()
                 sv = sys_._problem_meta.get('seed_vars')
@@ -496,6 +500,24 @@ class SeedFailureMonitor(FailureMonitor):
                             rr += float(np.sum(np.abs(r[a:b]) ** 2))
                     tot = float(np.sum(np.abs(r) ** 2))
                     irr_only = bool(tot > 0.0 and rr <= 1e-16 * tot)
+                    if irr_only:
+                        # do all the unconverged (irrelevant) entries belong to outputs of groups that approximate
+                        # their semi-totals?  (such a group is one unit for the solvers: nothing zeroes the
+                        # derivative entries of the irrelevant outputs inside it)
+                        root = sys_._problem_meta['model_ref']()
+                        apx_only = True
+                        for n in vec._views:
+                            a, b = vec.get_range(n)
+                            if float(np.sum(np.abs(r[a:b]) ** 2)) > 1e-16 * tot:
+                                path = n.rpartition('.')[0]
+                                inapx = False
+                                while path:
+                                    path = path.rpartition('.')[0]
+                                    g = root._get_subsystem(path) if path else None
+                                    if g is not None and getattr(g, '_owns_approx_jac', False):
+                                        inapx = True
+                                        break
+                                apx_only = apx_only and inapx
             except Exception:
                 if os.environ.get('OMV_DEBUG'):
                     import traceback
@@ -535,7 +557,7 @@ class SeedFailureMonitor(FailureMonitor):
                     import traceback
                     traceback.print_exc()
             last = _true_residual(slf)
-            rec = (type(slf).__name__, msg, seeds, mixed, full, incol, irr_only, hollow)
+            rec = (type(slf).__name__, msg, seeds, mixed, full, incol, irr_only, hollow, apx_only)
             if isinstance(slf, LinearSolver) and last is not None and \
                     (last[1] <= FLOOR_REL or last[0] <= FLOOR_ABS):
                 mon.floor_failures.append(rec + (last,))
@@ -576,6 +598,10 @@ def _fail_class(failures, src2spec, dep):
                               the active seeds as a system although none of its components is: its linear solver is
                               called with a right-hand side (put there by a matrix-free component that fills d_inputs
                               of an input which is irrelevant for the seed pair) that nothing in the group works on
+      live-seed:irrelevant-output-of-approx-group   ... otherwise, and (block solvers) what did not converge are only
+                              entries of outputs that are irrelevant for the active seeds and sit inside a RELEVANT
+                              group with approx_totals (one unit for the solvers; a matrix-free component outside put a
+                              derivative value there through the reverse transfer)
       live-seed:uniform-stack neither."""
     def dead(f):
         seeds, full = f[2], f[4]
@@ -606,6 +632,8 @@ def _fail_class(failures, src2spec, dep):
         return 'live-seed:mixed-stack-sibling'
     if all(len(f) > 7 and f[7] for f in live):
         return 'live-seed:hollow-group'
+    if all(len(f) > 8 and f[8] for f in live):
+        return 'live-seed:irrelevant-output-of-approx-group'
     return 'live-seed:uniform-stack'
 
 
